@@ -3496,7 +3496,7 @@ void SoPlexBase<R>::changeElementRational(int i, int j, const mpq_t* val)
    _rationalLUSolver.clear();
 
    if(intParam(SoPlexBase<R>::SYNCMODE) == SYNCMODE_AUTO)
-      _changeElementReal(i, j, mpq_get_d(*val));
+      _changeElementReal(i, j, R(Rational(*val)));   // rounded like every other rational value that goes to the real LP
 
    _invalidateSolution();
 }
